@@ -203,16 +203,24 @@ TickResult ==
             /\ (M3.bud = 0 \/ \A t \in pending : M3.bud > 0 /\ 2 * M3.now + M3.bud <= 2 * M3.tms[t].exp)
   IN [M3 EXCEPT !.early = ok]       \* .early now carries the verdict of the direct check
 
+(* how long the idle wait may last (sets built by filtering an interval, so
+   that TLC enumerates every length once) *)
+GrantMax == 8
+ASSUME Grants \subseteq 1..GrantMax
+WaitLengths(bud) ==
+  IF bud = 0 THEN {0}
+  ELSE IF bud < 0 THEN {x \in 0..GrantMax : x = 0 \/ x \in Grants}
+  ELSE {x \in 0..FloorU(bud) : x = 0 \/ x = FloorU(bud) \/ x \in Grants}
+
 Tick ==
   /\ nticks < MaxTicks /\ Some
   /\ \E M \in {TickResult} :
-       \E d \in Grants \cup {0, FloorU(M.bud)}, w \in {0, 1} :
+       \E d \in WaitLengths(M.bud), w \in {0, 1} :
         \* no wait / untimed wait ended by another thread's event / timed wait
         \* cut short by such an event (d < timeout) or running to its end
-        /\ IF M.bud = 0 THEN d = 0 /\ w = 0
-           ELSE IF M.bud < 0 THEN w = 1 /\ d \in Grants \cup {0}
-           ELSE /\ d >= 0 /\ d <= FloorU(M.bud)
-                /\ w = (IF d < FloorU(M.bud) THEN 1 ELSE 0)
+        /\ IF M.bud = 0 THEN w = 0
+           ELSE IF M.bud < 0 THEN w = 1
+           ELSE w = (IF d < FloorU(M.bud) THEN 1 ELSE 0)
         /\ now' = M.now + d
         /\ tms' = M.tms
         /\ queue' = IF w = 1 THEN Append(M.q, <<"op", 0, 0>>) ELSE M.q
